@@ -110,7 +110,7 @@ class SnapshotActionContext(FrameCollectorContext, ActionContext):
     def _process_action(self):
         collector = FrameCollector(self, self.trigger_context.frame)
 
-        frames, variables = collector.collect(self.trigger_context.vars, self.trigger_context.var_cache)
+        frames, variables = collector.collect({}, self.var_cache)
 
         snapshot = EventSnapshot(self.location_action.tracepoint, self.trigger_context.ts,
                                  self.trigger_context.resource, frames, variables)
@@ -127,6 +127,8 @@ class SnapshotActionContext(FrameCollectorContext, ActionContext):
             context = LogActionContext(self.trigger_context, LocationAction(self.location_action.id, None, {
                 LOG_MSG: log_msg,
             }, LocationAction.ActionType.Log))
+            # the log fields are part of this snapshot, so they share its variable ids
+            context.var_cache = self.var_cache
             log, watches, log_vars = context.process_log(log_msg)
             snapshot.log_msg = log
             for watch in watches:
